@@ -340,6 +340,17 @@ func runC09(l *core.Ledger) {
 	// every reply on that node unread for as long as the timer runs (up to the back-off cap)
 	l.Rule("C09-W11", "the reader never sleeps through a back-off while another goroutine has restored the stream (C10-N4 re-run)")
 	l.With(map[string]string{"C10-N4": "C09-W11"}, func() { c10N4(l, r) })
+	l.Rule("C09-W13", "what the capacity argument of W3 presupposes, and what keeps a server reading: every reply channel is allocated by the invocation that registers it, with room for every answer it can get (C05-M6 re-run) - a recycled channel is still the target of the router an earlier call left behind, and the second late reply parks the node's reader under responseMut; a handler the library itself supplies releases the connection on every path (C03-F9 re-run) - otherwise one request for it stops the server reading the stream while the client sees a healthy connection")
+	{
+		var eps []*entryPoint
+		l.With(map[string]string{}, func() { eps = findEntryPoints(l, r, "C09-W13") })
+		l.With(map[string]string{"C05-M6": "C09-W13"}, func() { c05M6(l, r, eps) })
+		var sl *serverLoop
+		l.With(map[string]string{}, func() { sl = findServerLoop(l, r, "C03-F4") })
+		if sl != nil {
+			c03F9(l, sl, "C09-W13")
+		}
+	}
 	l.Rule("C09-W12", "every configuration lists its nodes in one global order (C14-G1 re-run): the call types hand a request to the nodes one after the other and a node's reader can wait for a streaming call that is still handing out requests (C09-W3 residual) - with one order these waits form a chain that resolves, with two configurations in opposite orders they form a cycle that wedges both nodes")
 	l.With(map[string]string{"C14-G1": "C09-W12"}, func() {
 		for _, c := range findCtors(l, r) {
